@@ -7,14 +7,14 @@ for d in sorted(x for x in glob.glob(os.path.join(ROOT, "seeded", "*")) if os.pa
     m = json.load(open(os.path.join(d, "meta.json")))
     v = m.get("verification", {})
     mech = ""
-    for p, c in v.get("checks", {}).items():
+    for p, c in list(v.get("checks", {}).items()) + list(v.get("checks_after_widening", {}).items()):
         if c["mechanisms"] and not mech:
             mech = re.split(r"[:\[]", c["mechanisms"][0].replace("mechanism=", ""))[0]
     sid = os.path.basename(d)
     by.setdefault(sid[:3], []).append(f"  * `{sid}` {(m.get('summary','') or '')[:100].strip()}... -> {','.join(v.get('caught_by', [])) or '-'} ({mech})")
 def key(line):
     sid = line.split("`")[1]
-    r = re.search(r"-r(\d)-", sid)
+    r = re.search(r"-r(\d+)-", sid)
     return (int(r.group(1)) if r else 1, sid)
 for p in sorted(by):
     print(f"* **{p}**")
